@@ -23,7 +23,7 @@ TITLE = 'strict vs non-strict'
 LEVEL = 'exploration'
 SHARDS = {'quick': 16, 'thorough': 16}
 FLOOR = {'quick': 800, 'thorough': 10000}
-REQUIRED_MONITORS = {'valid-pairs-compared': 1000, 'strict-rejections-located': 800, 'deferred-raised': 300, 'deferred-dead': 300, 'same-text-planted-twice': 100, 'empty-expression-sites': 100, 'line-ending-sites': 200, 'location-history-steps': 300, 'load-chain-steps': 400}
+REQUIRED_MONITORS = {'valid-pairs-compared': 1000, 'strict-rejections-located': 800, 'deferred-raised': 300, 'deferred-dead': 300, 'same-text-planted-twice': 100, 'empty-expression-sites': 100, 'line-ending-sites': 200, 'location-history-steps': 300, 'load-chain-steps': 400, 'file-version-uses': 500}
 RULE = ('valid layer: a case = (program, binding table), strict and non-strict renderings compared; planted layer: a case = '
         '(program, planted slot, planting form in {alone, first pipe alternative, later pipe alternative, under not:, string: '
         'part, ${} part}, binding table); non-trivial: valid iff >=1 expression, planted always; distinct by (site kind, '
@@ -290,6 +290,7 @@ def run(ctx):
     layer_empty(ctx)
     layer_line_endings(ctx)
     layer_load_chain(ctx, 12 if ctx.quick else 200)
+    layer_file_versions(ctx, 15 if ctx.quick else 250)
     layer_location_history(ctx, 6 if ctx.quick else 60)
     rng = ctx.rng
     n = 100 if ctx.quick else 1800
@@ -542,6 +543,71 @@ def layer_load_chain(ctx, n):
                                   {'kind': 'loadchain'})
                     break
             ctx.case(key=('loadchain', tuple(st for _, st in pages), how, valid, tuple(steps)), nontrivial=len({st for _, st in pages}) > 1)
+    finally:
+        shutil.rmtree(tmp, ignore_errors=True)
+
+
+
+def layer_file_versions(ctx, n):
+    """A strict and a non-strict auto_reload file template follow the same file whose versions alternate between texts
+    with only valid expressions and texts with an invalid one: on EVERY use of an invalid version the strict template
+    fails with the ExpressionError (compilation of the current text never succeeded), the non-strict twin raises the
+    same error exactly when the expression is reached; on valid versions both render identically."""
+    import os
+    import shutil
+    import tempfile
+    from chameleon import PageTemplateFile
+    from chameleon.exc import ExpressionError
+    rng = ctx.rng
+    tmp = tempfile.mkdtemp(prefix='c19f_')
+    try:
+        for case in range(n):
+            path = os.path.join(tmp, 'f%d.pt' % case)
+            mtime = 1_000_000
+            ts = None
+            hist = []
+            ok = True
+            for step in range(rng.randint(2, 5)):
+                invalid = rng.random() < .55
+                expr = rng.choice(BADS) if invalid else rng.choice(['1 + 1', "'v'", 'reach'])
+                site = rng.choice(['<p tal:condition="reach">${%s}</p>', '<p tal:condition="reach" tal:content="%s">x</p>'])
+                text = rng.choice(['', '\n', 'é ']) + '<html>v%d' % step + site % expr + '</html>'
+                with open(path, 'w', encoding='utf-8') as f:
+                    f.write(text)
+                mtime += rng.choice([1, 5, -3])
+                os.utime(path, (mtime, mtime))
+                hist.append('write(%s)' % ('invalid' if invalid else 'valid'))
+                if ts is None:
+                    ts = {True: PageTemplateFile(path, auto_reload=True, strict=True),
+                          False: PageTemplateFile(path, auto_reload=True, strict=False)}
+                for use in range(rng.randint(1, 3)):
+                    reach = rng.choice([0, 1])
+                    outs = {}
+                    for strict in (True, False):
+                        try:
+                            outs[strict] = ('rendered', ts[strict](reach=reach))
+                        except ExpressionError as e:
+                            outs[strict] = ('ExpressionError', (str(e.token), e.offset))
+                        except Exception as e:
+                            outs[strict] = ('RAISED %s' % type(e).__name__, None)
+                    hist.append('render(reach=%d)' % reach)
+                    ctx.mon('file-version-uses')
+                    off = text.index(expr) if invalid else None
+                    if not invalid:
+                        good = outs[True][0] == 'rendered' and outs[True] == outs[False] and ('v%d' % step) in outs[True][1]
+                    else:
+                        loc = (expr.strip(), off)
+                        good = outs[True] == ('ExpressionError', loc) and (
+                            outs[False] == ('ExpressionError', loc) if reach else outs[False][0] == 'rendered' and ('v%d' % step) in outs[False][1])
+                    if not good:
+                        ctx.violation('file-version-strict-or-deferred-error-differs',
+                                      'history %r, file now %r: strict %r, non-strict %r' % (hist, text, outs[True], outs[False]),
+                                      {'kind': 'filever'})
+                        ok = False
+                        break
+                if not ok:
+                    break
+            ctx.case(key=('filever', tuple(hist)), nontrivial='write(invalid)' in hist)
     finally:
         shutil.rmtree(tmp, ignore_errors=True)
 
